@@ -19,12 +19,12 @@ CHECKS = {
   "Per-entry results, raw content hash, dump and both indices of variant replicas are compared pairwise with a reference replica fed one entry per apply call, and with the model, for seeded logs mixing leader-indexed and plain entries; savers keep applying between PrepareSnapshot and SaveSnapshot and receivers are judged right after recovery against the prefix the snapshot stands for.",
   "Clean close/reopen only (crashes are C04); snapshot transfer driven through the state machine interface as dragonboat drives it."),
  "C09": ("exploration",
-  "runtime monitoring: relational oracle (prefix, ascending, limit, truthful more, message size, losslessness) over reads of the real FSM and real gRPC streams; point-in-time view monitor with a concurrent writer",
+  "runtime monitoring: relational oracle (prefix, ascending, limit, truthful more, message size, losslessness) over reads of the real FSM and real gRPC streams; streams requested with and without a deadline (gRPC and engine); point-in-time view monitor with a concurrent writer",
   "Every read of a request family (limits m-2..m+2 and unlimited; full/keys_only/count_only; single read and stream) over generated contents incl. multi-MiB tables aligned on the 4 MiB cut is judged against the model's full answer; streams over real gRPC with the client's default message limit.",
   "Packing of pairs into messages is not judged; transport limit = gRPC default 4 MiB as regatta's clients use."),
  "C12": ("exploration",
   "runtime monitoring: round-trip / injectivity / order oracles over an exhaustive small key space plus random and extreme keys; bounds observed through the real FSM",
-  "All 780 keys over {00,01,02,FE,FF}^1..4 and all their pairs are checked exhaustively, plus >=150k random/extreme keys and pairs and sorted triples; wildcard and bookkeeping isolation additionally through range reads/deletes with extreme bounds on the real state machine, followed by reopen; an addressing layer (multi-predicate transactions on both paths over tables with concatenation-alias keys, streamed ranges drained after other requests) is judged against the reference table.",
+  "All 780 keys over {00,01,02,FE,FF}^1..4 and all their pairs are checked exhaustively, plus >=150k random/extreme keys and pairs and sorted triples; wildcard and bookkeeping isolation additionally through range reads/deletes with extreme bounds on the real state machine, followed by reopen; an addressing layer (multi-predicate transactions on both paths over tables with concatenation-alias keys, range reads in the apply call that wrote keys of mixed lengths, streamed ranges drained after other requests) is judged against the reference table.",
   "Accepted key length 1..1024 bytes; the streaming key.Decoder (unused by production code) is observed but not judged."),
  "C04": ("fault_enumeration",
   "runtime monitoring with fault injection: crash-simulating strict in-memory FS (crash before every k-th mutating FS operation), recovery judged against the model's log prefixes",
@@ -35,7 +35,7 @@ CHECKS = {
   "Reader level: seeded query sequences shaped like Replicate calls (several calls in progress, late compaction events, all entry types, size limits on exact boundaries, cache sizes 1..100) judged per query; server level: every start index 0..applied+2 after real histories with real log compaction, three message-size limits, cached and uncached server, byte-exact command comparison.",
   "The scripted log mirrors dragonboat v4's LogReader contract as read from the module source; cache staleness between a compaction and the delivery of its event is allowed as production delivers it asynchronously."),
  "C08": ("exploration",
-  "runtime monitoring: snapshot transfer oracle against the model (writes between prepare and save, dirty receivers, all format pairs), stop-signal sweep over the stream, read/install overlap schedules in child processes with process death / hang as observed outcomes",
+  "runtime monitoring: snapshot transfer oracle against the model (writes between prepare and save, dirty receivers, all format pairs), stop-signal sweep over the stream, install interrupted at every file-system operation by a process kill, a power loss and an I/O error, read/install overlap schedules in child processes with process death / hang as observed outcomes",
   "Receivers must equal the saver at prepare time (content, applied and leader index), keep nothing of their previous content, survive a restart; interrupted saves/recovers must report ErrSnapshotStopped and leave the old state readable; reads overlapping an install (eager, lazily consumed, in-flight, via callback and via util/iter.Pull) must show old or new state or fail cleanly. Three ways in which such reads bring the process down on the unchanged tree are listed as known findings.",
   "Crash (not stop) during save/recover is C04's enumeration; dragonboat's documented concurrency (Lookup concurrent with RecoverFromSnapshot) is assumed reachable; thorough tier runs the overlap children under the race detector."),
  "C13": ("exploration",
@@ -55,7 +55,7 @@ CHECKS = {
   "After every delivery step each view must equal the join of what reached it and never move to a lower term or from a leader to none; final views must be identical across all deliveries of a multiset (exhaustive for <=6 updates); live: per (observer,node,shard) the term in response headers never decreases and the leader never returns to 0, and headers converge to Raft's answer after transfers.",
   "Multisets are Raft-consistent by construction (one leader per term, one membership per config-change index); convergence bounds are watchdogs (inconclusive on expiry), a stale-leader-after-transfer observation is recorded in the evidence, not judged."),
  "C10": ("exploration",
-  "runtime monitoring: client-boundary history recording on a real 3-node cluster with one artificially lagging replica; offline history checker (revision-order replay through the reference model, read windows) plus porcupine on register keys; race detector build",
+  "runtime monitoring: client-boundary history recording on a real 3-node cluster with one artificially lagging replica; offline history checker (revision-order replay through the reference model, read windows) plus porcupine on register keys; self-consistency probes (read-only transactions with slow predicates, multi-message streams over a table whose two markers are rewritten together); race detector build",
   "Concurrent histories (puts, deletes, bounded range deletes, transactions incl. empty-branch and read-only ones, linearizable and serializable reads on every node, half of the reads on the lagging replica right after the client's own acknowledged write) are judged (writers also issue empty-branch transactions in simultaneous bursts; probe readers run self-consistency read-only transactions with slow predicates): revisions non-zero, distinct and real-time consistent; replay in revision order explains every response; linearizable reads and read-only txns match a state inside their real-time window, serializable reads some existing prefix.",
   "No client-visible faults injected: a run with a failed/timed-out write is discarded as inconclusive; lag is produced by stalling the apply path of node 3 (AppliedIndexListener); history taken at the engine API the gRPC service calls."),
  "C16": ("exploration",
@@ -63,15 +63,15 @@ CHECKS = {
   "A fixed catalogue (every documented rule per method, each also nested in executed and non-executed transaction branches, boundary-size keys/values, hostile table names, every wire mutation per method) and a seeded request stream are sent; refused requests must leave every dump unchanged, accepted ones must change it exactly as the model says, and the serving process must stay alive.",
   "Raw wire mutants are judged only on liveness and refused => unchanged; a pebble assertion that exists only in -race builds (inverted read bounds reaching an sstable) and race reports inside regatta's copy of iter.Pull are counted, not judged."),
  "C14": ("exploration",
-  "runtime monitoring: seeded catalogue histories on a real engine (1 and 3 nodes; a three-node restore / node-away-and-back scenario in both tiers; restores that break off) judged online against a catalogue model with per-table content models; racing creations; reconciliation observed through the running-shard list; pure diff observed through the export shim; process death supervised",
+  "runtime monitoring: seeded catalogue histories on a real engine (1 and 3 nodes; a three-node restore / creations-through-all-nodes-at-once / node-away-and-back scenario in both tiers; restores that break off; reconciliation passes racing creates and deletes) judged online against a catalogue model with per-table content models; racing creations; reconciliation observed through the running-shard list; pure diff observed through the export shim; process death supervised",
   "create/delete/restore/list/lookup over 3 names interleaved with data operations: success conditions, strictly growing ids (also across delete/recreate and restore), emptiness of (re)created tables, exact restored content, cross-table isolation (all tables dumped after every operation), running user shards == catalogued shards after a reconciliation pass; of racing creations of one name at most one succeeds and ids are never assigned twice.",
   "Reconciliation is triggered through the verif export shim (the periodic loop fires every 30 s); user shard ids > 10000; data-directory clean-up after the 5-minute grace period is not exercised."),
  "C07": ("exploration",
-  "runtime monitoring: real Engine.Restore under batch-threshold settings aimed at every record position; real backup client + Maintenance service round trips incl. corrupted inputs; captures concurrent with a writer judged against the acknowledged-write history",
+  "runtime monitoring: real Engine.Restore under batch-threshold settings aimed at every record position (also as the retry of an attempt that broke off in mid-stream); table streams taken from the state machine while it applies writes back to back; real backup client + Maintenance service round trips incl. corrupted inputs; captures concurrent with a writer judged against the acknowledged-write history",
   "Restored content must equal the captured content exactly (no pair lost/altered/added, nothing of the pre-restore content left) for MaxInMemLogSize = 2*c_i and 2*c_i+2 for every cumulative record size c_i (threshold on / after every record, incl. the last), 0, 64 KiB, 1 MiB, with and without the final leader-index marker (recorded leader index == declared index); backup files with a flipped byte / altered manifest checksum / truncation must be refused without effect; captures taken while writes continue must be the state at exactly the declared index.",
   "MaxInMemLogSize below ~1 kB is not exercised (dragonboat then rejects the proposals forever and Restore retries by design); transport chunking is C18's subject, follower recovery end to end C05's."),
  "C11": ("exploration",
-  "runtime monitoring: seeded event scripts on the real IndexNotificationQueue judged at barriers (Notify+Len), the real ForwardingKVServer under scripted orders of leader reply / notification / cancellation, and follower-API writes read back on the same node end to end (incl. no-op deletes through a slowly applying follower, every acknowledgement compared with the applied leader index, writes through a restarted follower node with the notification held back until the waiter is registered); process death supervised; race detector build",
+  "runtime monitoring: seeded event scripts on the real IndexNotificationQueue judged at barriers (Notify+Len), the real ForwardingKVServer under scripted orders of leader reply / notification / cancellation, the real table state machine wired to the real queue (an announced applied index implies the write is readable), and follower-API writes read back on the same node end to end (incl. no-op deletes through a slowly applying follower, every acknowledgement compared with the applied leader index, writes through a restarted follower node with the notification held back until the waiter is registered); process death supervised; race detector build",
   "No early release, prompt release of every live waiter after a sufficient notification, exactly one answer per waiter (checked after quiescence, re-examined at 3x the bound), Len never below the number of live waiters, the event loop keeps answering (wedge detection) for scripts mixing live, cancelled and expired waiters across sweeps incl. revision 0; the RPC returns only after the node applied the leader revision or with the context error; acknowledged follower writes are visible to a same-node serializable read.",
   "One known finding: a waiter added after the notification that already covers it waits for the next notification (ack delayed although applied). Bounds are watchdogs re-checked once, sweeps are real time."),
  "C18": ("exploration",
@@ -80,7 +80,7 @@ CHECKS = {
   "One known finding in generated code (pooled Command keeps an empty range_end; latent, no production path decodes into pooled Commands). Hostile wire input is C16's subject."),
  "C05": ("exploration",
   "runtime monitoring: leader + follower clusters running the real replication stack in one process; every leader write issued and recorded by the harness; follower sandwich samples (index, dump, index) judged against the reference model's leader state at that index; bounded convergence; path counters from interceptors on the leader's replication server",
-  "Scenarios (log tailing with Raft-internal entries in mid-log at message boundaries, a second consumer of the leader's log, snapshot recovery after leader log compaction incl. batch-closing-last-pair and empty-table streams, writes during recovery, worker restart, engine restart, slow follower apply with proposal time-outs, table create/delete) with non-idempotent leader commands: every usable follower sample must equal the leader state at the recorded index, the index never moves backwards, the follower reaches the leader's final state and table set after the leader stops; the evidence shows how many Replicate calls, USE_SNAPSHOT answers and snapshot streams each run really contained.",
+  "Scenarios (log tailing with Raft-internal entries in mid-log at message boundaries, a second consumer of the leader's log, a snapshot recovery interrupted by a node restart and retried, overlapping replication rounds fed to the real state machine, leader snapshot streams taken under writes, snapshot recovery after leader log compaction incl. batch-closing-last-pair and empty-table streams, writes during recovery, worker restart, engine restart, slow follower apply with proposal time-outs, table create/delete) with non-idempotent leader commands: every usable follower sample must equal the leader state at the recorded index, the index never moves backwards, the follower reaches the leader's final state and table set after the leader stops; the evidence shows how many Replicate calls, USE_SNAPSHOT answers and snapshot streams each run really contained.",
   "Single-node leader and follower clusters in the quick tier; a leader write that fails makes the run inconclusive; convergence = bounded progress (60 s, re-checked at 180 s); follower MaxInMemLogSize >= 1 MiB (must exceed the worker's 256 KiB proposals)."),
 }
 
